@@ -17,6 +17,7 @@ EXPLANATION = (
 NOT_DECIDED = ["tie order of np.argsort (any order of tied rows satisfies the statement)", "that argsort returns a permutation (library)"]
 ASSUMPTIONS = ["lo <= hi", "remove_resolved off"]
 TRUSTED = ["python ast", "sedlint E4/E5"]
+SORT_FNS = {'at', 'argsort', 'rev', 'round', 'floor', 'ceil', 'int', 'abs'}          # functions a ranking may be built from and whose meaning is known: rounding and the like do not preserve order
 MIN = {'PERM-1': 6, 'PERM-7': 5, 'ALG-7': 2, 'EFF-2': 1, 'ALG-10': 4}
 TECHNIQUE = 'static analysis: AST value numbering (gather/permutation atoms) and coherence-set comparison over FitInfo.sort and Models.fit'
 
@@ -50,10 +51,10 @@ def check_sort(ctx):
                 ctx.expect(got is None, 'PERM-1', inst, loc(srt), 'absent predicted fluxes stay absent', 'absent predicted fluxes become %r' % (got,), 'none-guard')
                 continue
             if k == 'model_id':
-                compare(ctx, 'PERM-1', inst, loc(srt), got, order, (M,), vocab=VOCAB, findings=I.findings, detail_ok='model_id == argsort(chi2) (ascending)')
+                compare(ctx, 'PERM-1', inst, loc(srt), got, order, (M,), vocab=VOCAB, fns=SORT_FNS, findings=I.findings, detail_ok='model_id == argsort(chi2) (ascending)')
                 continue
             ref = mk_fn('at', B(M, sym(k, *shapes.get(k, (M,)))), P(order))
-            compare(ctx, 'PERM-1', inst, loc(srt), got, ref, shapes.get(k, (M,)), vocab=VOCAB, findings=I.findings,
+            compare(ctx, 'PERM-1', inst, loc(srt), got, ref, shapes.get(k, (M,)), vocab=VOCAB, fns=SORT_FNS, findings=I.findings,
                     detail_ok='%s == %s[argsort(chi2)] on the model axis' % (k, k))
 
 
@@ -147,6 +148,7 @@ def run(ctx):
 FI = 'sedfitter/fit_info.py'
 MO = 'sedfitter/models.py'
 MUST_FIRE = [
+    ('ranked by chi^2 rounded to three decimals, ties by name: fits that differ in the fourth decimal can be listed in decreasing order', [('sedfitter/fit_info.py', 'order = np.argsort(self.chi2)', 'order = np.lexsort((self.model_name, np.round(self.chi2, 3)))')]),
     ('only finite chi2 ranked: argsort of the compressed array concatenated with full-axis positions', [(FI, 'order = np.argsort(self.chi2)', 'ranked = np.isfinite(self.chi2)\n        order = np.hstack([np.argsort(self.chi2[ranked]), np.flatnonzero(~ranked)])')]),
     ('sort omits sc', [(FI, "        self.sc = self.sc[order]\n        self.chi2 = self.chi2[order]", "        self.chi2 = self.chi2[order]")]),
     ('argsort(-chi2)', [(FI, "order = np.argsort(self.chi2)", "order = np.argsort(-self.chi2)")]),
@@ -166,6 +168,7 @@ MUST_FIRE = [
     ('chi2 permuted twice', [(FI, "        self.chi2 = self.chi2[order]\n", "        self.chi2 = np.sort(self.chi2[order])\n")]),
 ]
 MUST_SILENT = [
+    ('ranked by chi^2, exact ties in order of model name', [('sedfitter/fit_info.py', 'order = np.argsort(self.chi2)', 'order = np.lexsort((self.model_name, self.chi2))')]),
     ('order renamed and reused', [(FI, "order = np.argsort(self.chi2)", "idx = np.argsort(self.chi2)\n        order = idx")]),
     ('explicit slice on names', [(FI, "self.model_name = self.model_name[order]", "self.model_name = self.model_name[order,]")]) if False else
     ('assignment order changed', [(FI, "        self.av = self.av[order]\n        self.sc = self.sc[order]\n", "        self.sc = self.sc[order]\n        self.av = self.av[order]\n")]),
